@@ -77,7 +77,7 @@ void verif_sample_state(const char *phase) {
     sigset_t ss; sigprocmask(SIG_SETMASK, NULL, &ss);
     uint64_t sm = 0; for (int s = 1; s < 64; s++) if (sigismember(&ss, s)) sm |= 1ULL << s;
     uint64_t hh = 1469598103934665603ULL;
-    for (int s = 1; s < 65; s++) { struct sigaction sa; if (sigaction(s, NULL, &sa) == 0) { hh = fnv(hh, &sa.sa_handler, sizeof sa.sa_handler); hh = fnv(hh, &sa.sa_flags, sizeof sa.sa_flags); } }
+    for (int s = 1; s < 65; s++) { struct sigaction sa; if (sigaction(s, NULL, &sa) == 0) { hh = fnv(hh, &sa.sa_handler, sizeof sa.sa_handler); int fl = sa.sa_flags & ~0x04000000 /* SA_RESTORER: set by glibc's own sigaction wrapper whenever IT restores a disposition (getutline_r's lock timer); not a property of the disposition */; hh = fnv(hh, &fl, sizeof fl); } }
     uint64_t eh = 1469598103934665603ULL; long ne = -1;
     if (environ) { ne = 0; for (char **e = environ; *e; e++) { eh = fnv(eh, e, sizeof *e); eh = fnv(eh, *e, strlen(*e) + 1); ne++; } }
     uint64_t ep = (uint64_t)(uintptr_t) environ; eh = fnv(eh, &ep, sizeof ep);
